@@ -146,7 +146,21 @@ def step (σ : PS) (line : Option Str) : PS :=
     | some d => { σ2 with indent := σ2.indent + 1, detail := d :: σ2.detail }
     | none => σ2
 
-def run (σ : PS) (ls : List (Option Str)) : PS := ls.foldl step σ
+/-- a printer call: `writeline(line)` or `write_indented_block(text)` -/
+inductive Ev
+  | wl (line : Option Str)
+  | blk (text : Str)
+  deriving DecidableEq, Repr, Inhabited
+
+/-- `write_indented_block` buffers the block; the next `writeline` (or `close`) flushes it *before* it looks at
+    its own line, re-margined to the indentation level current at that moment – which is the level at the time of
+    the `write_indented_block` call, no `writeline` having happened in between.  The block appears in `out` as
+    one entry; it leaves `indent` and `indent_detail` alone. -/
+def stepEv (σ : PS) : Ev → PS
+  | .wl l => step σ l
+  | .blk t => if σ.err then σ else { σ with out := σ.out ++ [(σ.indent, t)] }
+
+def run (σ : PS) (ls : List Ev) : PS := ls.foldl stepEv σ
 
 /-! ## structured programs -/
 
@@ -155,7 +169,8 @@ def run (σ : PS) (ls : List (Option Str)) : PS := ls.foldl step σ
     headers are continuation clauses. -/
 inductive Prog
   | nil
-  | line (s : Str) (rest : Prog)
+  /-- a simple statement; `raw`: a `<% %>` block, written through `write_indented_block` -/
+  | line (raw : Bool) (s : Str) (rest : Prog)
   | comp (hdr : Str) (suite : Prog) (rest : Prog)
   deriving DecidableEq, Repr, Inhabited
 
@@ -170,15 +185,15 @@ def startsCont : Prog → Bool
 
 /-- the flat emission: what `mako/codegen.py` hands to `writeline`, line by line; the suite of a compound
     statement is closed by a `None` unless a continuation clause follows -/
-def emit : Prog → List (Option Str)
+def emit : Prog → List Ev
   | .nil => []
-  | .line s r => some s :: emit r
-  | .comp h b r => some h :: (emit b ++ (if startsCont r then emit r else none :: emit r))
+  | .line raw s r => (if raw then .blk s else .wl (some s)) :: emit r
+  | .comp h b r => .wl (some h) :: (emit b ++ (if startsCont r then emit r else .wl none :: emit r))
 
 /-- the indentation the program ought to have -/
 def layout (d : Nat) : Prog → List (Nat × Str)
   | .nil => []
-  | .line s r => (d, s) :: layout d r
+  | .line _ s r => (d, s) :: layout d r
   | .comp h b r => (d, h) :: (layout (d + 1) b ++ layout d r)
 
 /-- a simple line leaves the indentation alone: it is a comment in column 0, or it has text, is no unindentor
@@ -197,7 +212,7 @@ def HeaderOk (h : Str) : Bool :=
     `some c` after a compound statement whose last header was (`c = true`) / was not in `_re_compound`). -/
 def good : Option Bool → Prog → Bool
   | _, .nil => true
-  | _, .line s r => LineOk s && good none r
+  | _, .line raw s r => (raw || LineOk s) && good none r
   | prev, .comp h b r =>
     HeaderOk h && (!isCont h || prev == some true) && good none b && good (some (isCompound h)) r
 
@@ -205,15 +220,21 @@ def good : Option Bool → Prog → Bool
     program (`try/except A/except B` is one) -/
 def wellFormed : Option Bool → Prog → Bool
   | _, .nil => true
-  | _, .line s r => LineOk s && wellFormed none r
+  | _, .line raw s r => (raw || LineOk s) && wellFormed none r
   | prev, .comp h b r =>
     HeaderOk h && (!isCont h || prev.isSome) && wellFormed none b && wellFormed (some (isCompound h)) r
 
 /-- no empty suite (Python rejects one; the auto-`pass` rule of `visitControlLine` is there to avoid them) -/
 def suitesNonEmpty : Prog → Bool
   | .nil => true
-  | .line _ r => suitesNonEmpty r
+  | .line _ _ r => suitesNonEmpty r
   | .comp _ b r => b != .nil && suitesNonEmpty b && suitesNonEmpty r
+
+/-- forget which simple lines came from `<% %>` blocks (the written text does not say) -/
+def unraw : Prog → Prog
+  | .nil => .nil
+  | .line _ s r => .line false s (unraw r)
+  | .comp h b r => .comp h (unraw b) (unraw r)
 
 /-! ## reading indentation back -/
 
@@ -226,7 +247,7 @@ def parseAt : Nat → Nat → List (Nat × Str) → Option (Prog × List (Nat ×
     if d' < d then some (.nil, (d', s) :: rest)
     else if d' = d then
       match rest with
-      | [] => some (.line s .nil, [])
+      | [] => some (.line false s .nil, [])
       | (d'', _) :: _ =>
         if d'' = d + 1 then
           match parseAt fuel (d + 1) rest with
@@ -238,7 +259,7 @@ def parseAt : Nat → Nat → List (Nat × Str) → Option (Prog × List (Nat ×
         else
           match parseAt fuel d rest with
           | none => none
-          | some (r, rest1) => some (.line s r, rest1)
+          | some (r, rest1) => some (.line false s r, rest1)
     else none
 
 /-- the structured program a flat, indented line sequence denotes -/
